@@ -33,7 +33,7 @@ V_REQUIRES(__CPROVER_rw_ok(zck, sizeof(*zck)))
 V_REQUIRES(__CPROVER_rw_ok(val, sizeof(*val)) && __CPROVER_rw_ok(length, sizeof(*length)))
 V_REQUIRES(__CPROVER_r_ok(compint, CI_AVAIL(*length, max_length)))
 V_ASSIGNS(*val, *length, zck->error_state)
-V_ENSURES(post_compint_decode(__CPROVER_return_value, ZCK_OK_OLD(zck), compint, V_OLD(*length), max_length, *length, (v_u128)*val, (v_u128)UINT64_MAX)) /*@C20.to_size.accepts_iff_valid_and_decodes_the_exact_value_and_length*/
+V_ENSURES(post_compint_decode(__CPROVER_return_value, ZCK_OK_OLD(zck), compint, V_OLD(*length), max_length, *length, (v_u128)*val, (v_u128)UINT64_MAX)) /*@C20,C13.to_size.accepts_iff_valid_and_decodes_the_exact_value_and_length*/
 ;
 
 int compint_to_int(zckCtx *zck, int *val, const char *compint, size_t *length,
@@ -42,8 +42,8 @@ V_REQUIRES(__CPROVER_rw_ok(zck, sizeof(*zck)))
 V_REQUIRES(__CPROVER_rw_ok(val, sizeof(*val)) && __CPROVER_rw_ok(length, sizeof(*length)))
 V_REQUIRES(__CPROVER_r_ok(compint, CI_AVAIL(*length, max_length)))
 V_ASSIGNS(*val, *length, zck->error_state)
-V_ENSURES(__CPROVER_return_value != 1 || *val >= 0) /*@C20.to_int.nonnegative*/
-V_ENSURES(post_compint_decode(__CPROVER_return_value, ZCK_OK_OLD(zck), compint, V_OLD(*length), max_length, *length, (v_u128)(unsigned)*val, (v_u128)INT_MAX)) /*@C20.to_int.accepts_iff_fits_int_and_decodes_the_exact_value_and_length*/
+V_ENSURES(__CPROVER_return_value != 1 || *val >= 0) /*@C20,C13.to_int.nonnegative*/
+V_ENSURES(post_compint_decode(__CPROVER_return_value, ZCK_OK_OLD(zck), compint, V_OLD(*length), max_length, *length, (v_u128)(unsigned)*val, (v_u128)INT_MAX)) /*@C20,C13.to_int.accepts_iff_fits_int_and_decodes_the_exact_value_and_length*/
 ;
 
 /* Encoder: writes the minimal encoding of val (n = SPEC_CI_ENCLEN(val) <= 10 bytes) at
